@@ -436,6 +436,13 @@ class QueryGen:
                 else:
                     group_by.append(ir.Key('expr', k))
             rng.shuffle(group_by)
+            if rng.random() < 0.15:
+                # the same key referenced twice (by position and by name/expression, or simply repeated)
+                k = rng.choice(group_by)
+                dup = ir.Key(k.kind, k.value)
+                if k.kind == 'index' and rng.random() < 0.6:
+                    dup = ir.Key('expr', targets[k.value - 1].expr)
+                group_by.insert(rng.randrange(len(group_by) + 1), dup)
             if rng.random() < 0.4:
                 having = self.having_expr()
         return ir.Query(targets=targets, table=self.table, where=self.where(0.4), group_by=group_by, having=having)
